@@ -9,9 +9,10 @@
 EXTENDS PulserRender, Json
 
 CONSTANT NAssign   \* number of variable assignments of a template configuration (0 = none)
+CONSTANT InitDevs  \* devices on which behaviours start (the others are only switch targets)
 
 Init ==
-  /\ \E d \in 1..Len(Devs) : s = ReplayFrom(Init0(d), InitCalls, 1)
+  /\ \E d \in InitDevs : s = ReplayFrom(Init0(d), InitCalls, 1)
   /\ hist = <<>>
   /\ viol = {}
 
@@ -68,6 +69,21 @@ Emit == PrintT("ST|" \o ToJson([h |-> hist, s |-> Obs(s), v |-> viol]))
 EmitB == PrintT("ST|" \o ToJson([h |-> hist, s |-> Obs(s), v |-> viol,
            b |-> [a \in 1..NAssign |->
                     LET r == BuildResult(hist, s.dev, a) IN [out |-> r.out, st |-> Obs(r.st)]]]))
+
+(* Sequence.switch_device(non strict) to device k with the same channel layout: the recorded *)
+(* calls replayed on device k (C18)                                                          *)
+SwitchResult(h, k) ==
+  LET st0 == ReplayFrom(Init0(k), InitCalls, 1)
+      L == SelectSeq(h, LAMBDA e : e[4] = "L")
+      RECURSIVE run(_, _)
+      run(st, j) == IF j > Len(L) THEN Ok(st)
+                    ELSE LET r == StepB(st, Calls[L[j][1]]) IN
+                         IF r.out # "ok" THEN r ELSE run(r.st, j + 1)
+  IN run(st0, 1)
+EmitS == PrintT("ST|" \o ToJson([h |-> hist, s |-> Obs(s), v |-> viol,
+           sw |-> [k \in 1..Len(Devs) |->
+                     IF k \in InitDevs THEN [out |-> "same", st |-> <<>>]
+                     ELSE LET r == SwitchResult(hist, k) IN [out |-> r.out, st |-> Obs(r.st)]]]))
 
 (* the same with the reference rendering of the state (C06 / C05 / C14) *)
 EmitR == PrintT("ST|" \o ToJson([h |-> hist, s |-> Obs(s), v |-> viol, r |-> Render(s)]))
